@@ -274,6 +274,11 @@ func (c *Ctx) checkDupPairs(r *Report, rule string, t *rrType) {
 	}
 	r.fn(fname)
 	pos := c.pos(fd.Pos())
+	if t.Embeds != "" && c.dupDelegates(fd, t.Embeds) {
+		// the RDATA is the embedded record's: its own isDuplicate (an obligation of its own) compares the fields
+		r.ok(rule, t.Name, pos, "delegates to ("+t.Embeds+").isDuplicate on the embedded records of both sides")
+		return
+	}
 	pairs, r2ok, finalTrue, problems := c.dupPairs(fd)
 	if !r2ok {
 		problems = append(problems, "the argument is not type-asserted to the receiver's own type")
@@ -591,4 +596,71 @@ func (c *Ctx) checkCopyPos(r *Report, rule string, t *rrType) {
 	} else {
 		r.fail(rule, t.Name, pos, "%s", strings.Join(problems, "; "))
 	}
+}
+
+// dupDelegates: the body is `r2, ok := _r2.(*T); if !ok { return false }; return r1.E.isDuplicate(&r2.E)` — nothing
+// else is compared, and the embedded records handed to E's isDuplicate are the receiver's and the asserted argument's.
+func (c *Ctx) dupDelegates(fd *ast.FuncDecl, embeds string) bool {
+	r1 := c.recvObj(fd)
+	param := c.paramObj(fd, 0)
+	var r2 types.Object
+	nRet := 0
+	var last *ast.ReturnStmt
+	okShape := true
+	for _, st := range fd.Body.List {
+		switch t := st.(type) {
+		case *ast.AssignStmt:
+			if t.Tok == token.DEFINE && len(t.Lhs) == 2 && len(t.Rhs) == 1 {
+				if ta, ok := ast.Unparen(t.Rhs[0]).(*ast.TypeAssertExpr); ok && c.isIdentOf(ta.X, param) && types.Identical(c.Info.TypeOf(ta.Type), r1.Type()) {
+					if id, ok := t.Lhs[0].(*ast.Ident); ok {
+						r2 = c.Info.Defs[id]
+						continue
+					}
+				}
+			}
+			if len(t.Lhs) == 1 && identName(t.Lhs[0]) == "_" {
+				continue
+			}
+			okShape = false
+		case *ast.IfStmt:
+			// if !ok { return false }
+			if len(t.Body.List) != 1 || t.Else != nil {
+				okShape = false
+				continue
+			}
+			ret, ok := t.Body.List[0].(*ast.ReturnStmt)
+			if !ok || len(ret.Results) != 1 {
+				okShape = false
+				continue
+			}
+			if tv, has := c.Info.Types[ret.Results[0]]; !has || tv.Value == nil || tv.Value.String() != "false" {
+				okShape = false
+			}
+		case *ast.ReturnStmt:
+			nRet++
+			last = t
+		default:
+			okShape = false
+		}
+	}
+	if !okShape || nRet != 1 || last == nil || r2 == nil || len(last.Results) != 1 {
+		return false
+	}
+	call, ok := ast.Unparen(last.Results[0]).(*ast.CallExpr)
+	if !ok || c.calleeName(call) != "("+embeds+").isDuplicate" || len(call.Args) != 1 {
+		return false
+	}
+	sel, ok := ast.Unparen(call.Fun).(*ast.SelectorExpr)
+	if !ok {
+		return false
+	}
+	if p, ok := c.fieldPath(sel.X, r1); !ok || p != embeds {
+		return false
+	}
+	arg := ast.Unparen(call.Args[0])
+	if u, ok := arg.(*ast.UnaryExpr); ok && u.Op == token.AND {
+		arg = ast.Unparen(u.X)
+	}
+	p, ok := c.fieldPath(arg, r2)
+	return ok && p == embeds
 }
